@@ -49,6 +49,9 @@ func isClientClosedErr(err error) bool {
 func c19Run(c c19Case) Outcome {
 	var o Outcome
 	res := inBubble(theT, func() { o = c19RunInBubble(c) })
+	if o, stuck := stuckVerdict(res); stuck {
+		return o
+	}
 	if res.Panic != "" {
 		return viol("panic@"+topFrame(res.Stack), "%s\n%s", res.Panic, res.Stack)
 	}
